@@ -10,7 +10,7 @@ PROPERTY = 'C17'
 RULE = ('One real ContactHandler (active or passive, 0-3 own bundles queued) against a scripted peer built on the '
         'independent RFC 9174 codec.  The script is a generated list of steps: proper handshake steps, proper transfers, '
         'proper ACKs of everything received ("behave") and single well-formed out-of-place messages chosen from a '
-        '14-letter alphabet (segment/ACK/refuse/SESS_TERM/KEEPALIVE before establishment, contact header with wrong '
+        '17-letter alphabet (segment/ACK/refuse/SESS_TERM/KEEPALIVE before establishment, ACK/refuse naming an own queued transfer before establishment, contact header with wrong '
         'magic or version, second contact header / SESS_INIT, non-START segment without transfer, segment of another '
         'id mid-transfer, START while a transfer is open, ACK/refuse for unknown ids, unknown message type).  All '
         'sequences of up to 2 (quick) / 3 (thorough) adversarial letters are enumerated per phase (before contact, '
@@ -23,17 +23,19 @@ RULE = ('One real ContactHandler (active or passive, 0-3 own bundles queued) aga
 SHRINK_KEYS = ('script',)
 ASSUMPTIONS = [
     'messages are delivered whole (chunking is C07), one step at a time, the endpoint runs to quiescence in between',
-    'adversarial transfer ids (>= 100) never collide with the endpoint own transfer ids (1..3)',
+    'adversarial transfer ids (>= 100) never collide with the endpoint own transfer ids (1..3), except the refuse-own / '
+    'ack-own / ack-end-own letters which name the first own queued transfer and are sent only before the session is '
+    'established (afterwards they would be the peer\'s legitimate answer to that transfer)',
     'a second contact header / SESS_INIT and KEEPALIVE/MSG_REJECT at odd times only have to be survived (no escape), the '
     'property lists no required answer for them',
 ]
 EXHAUSTIVE_PART = 'all sequences of <= 2 (quick) / <= 3 (thorough) adversarial letters in each of three phases, active and passive'
 
 LETTERS = ['seg-start', 'seg-mid', 'seg-end', 'ack', 'ack-end', 'refuse', 'term', 'term-reply', 'keepalive', 'reject',
-           'unknown-type', 'second-ch', 'second-init', 'seg-other-id']
+           'unknown-type', 'second-ch', 'second-init', 'seg-other-id', 'refuse-own', 'ack-own', 'ack-end-own']
 MUST_ANSWER_ALWAYS = {'unknown-type'}
 MUST_ANSWER_BEFORE_SESSION = {'seg-start', 'seg-mid', 'seg-end', 'ack', 'ack-end', 'refuse', 'term', 'term-reply',
-                              'seg-other-id'}
+                              'seg-other-id', 'refuse-own', 'ack-own', 'ack-end-own'}
 MUST_ANSWER_ESTABLISHED = {'seg-mid', 'seg-end', 'ack', 'ack-end', 'refuse', 'seg-other-id'}
 
 
@@ -47,10 +49,17 @@ def budgets(tier):
     return dict(shards=16, examples=2500, deadline_s=3000)
 
 
-def letter_msg(letter, counter):
-    ''' The well-formed message for an adversarial letter (ids >= 100 are never the endpoint own). '''
+def letter_msg(letter, counter, own_id=1, own_len=0):
+    ''' The well-formed message for an adversarial letter (ids >= 100 are never the endpoint own; the -own
+    letters name the endpoint's first queued transfer and are only used before the session exists). '''
     from vlib import ref9174 as r
     tid = 100 + counter
+    if letter == 'refuse-own':
+        return {'t': 'XFER_REFUSE', 'reason': 2, 'id': own_id}
+    if letter == 'ack-own':
+        return {'t': 'XFER_ACK', 'flags': 2, 'id': own_id, 'length': min(own_len, 3)}
+    if letter == 'ack-end-own':
+        return {'t': 'XFER_ACK', 'flags': 3, 'id': own_id, 'length': own_len}
     if letter == 'seg-start':
         return {'t': 'XFER_SEGMENT', 'flags': 2, 'id': tid, 'ext': [r.transfer_length_ext(9)], 'data': b'start-seg'.hex()}
     if letter == 'seg-mid':
@@ -275,7 +284,10 @@ def execute(case):
         elif kind == 'adv':
             letter = step[1]
             counter += 1
-            msg = letter_msg(letter, counter)
+            if letter.endswith('-own') and (in_sess_before or not own):
+                # inside the session these would be the peer's legitimate say about our transfer, not out of place
+                letter = letter[:-4]
+            msg = letter_msg(letter, counter, int(own[0][0]) if own else 1, len(own[0][1]) if own else 0)
             if letter == 'seg-other-id' and peer.open_tid is None and established:
                 letter_eff = 'seg-mid'      # no open transfer: it is simply a segment without a transfer
             else:
